@@ -455,6 +455,60 @@ fn check_glob(g: &GlobCase, ic: bool, paths: &[(String, Vec<char>)], agg: &mut A
     }
 }
 
+/// Two include patterns at once (`--path G1 --path G2`): a path is selected iff one of them matches it, and every
+/// ancestor directory of a selected path must be enterable (a directory may be needed by one pattern only).
+fn check_pair(g1: &GlobCase, g2: &GlobCase, ic: bool, paths: &[(String, Vec<char>)], agg: &mut Agg, st: &mut Stats) {
+    let opts = || if ic { PatternOpts::case_insensitive() } else { PatternOpts::default() };
+    let (p1, p2) = match (Pattern::glob_with(&g1.src, &opts()), Pattern::glob_with(&g2.src, &opts())) {
+        (Ok(a), Ok(b)) => (a, b),
+        _ => return,
+    };
+    st.globs += 1;
+    let base = fclones::Path::from("/w");
+    let inc = PathSelector::new(base).include_paths(vec![p1, p2]);
+    let abs1 = g1.src.starts_with('/') || g1.src.starts_with("**");
+    let abs2 = g2.src.starts_with('/') || g2.src.starts_with("**");
+    for (ps, pc) in paths {
+        if ps.starts_with('/') {
+            continue; // relative path strings only: files at /w/<path>
+        }
+        st.evals += 1;
+        let abs = format!("/w/{}", ps);
+        let absc: Vec<char> = abs.chars().collect();
+        let m = |g: &GlobCase, is_abs: bool, neg: bool| if is_abs { rmatch(&g.toks, &absc, ic, neg) } else { rmatch(&g.toks, pc, ic, neg) };
+        let e_lo = (m(g1, abs1, false) && m(g1, abs1, true)) || (m(g2, abs2, false) && m(g2, abs2, true));
+        let e_hi = m(g1, abs1, false) || m(g1, abs1, true) || m(g2, abs2, false) || m(g2, abs2, true);
+        let absp = fclones::Path::from(abs.as_str());
+        let got = inc.matches_full_path(&absp);
+        if (got && !e_hi) || (!got && e_lo) {
+            agg.add(
+                format!("\"kind\":\"pair_match_differs\",\"expected\":{},\"ignore_case\":{}", e_lo, ic),
+                || format!("\"glob\":{},\"glob2\":{},\"path\":{},\"got\":{}", jstr(&g1.src), jstr(&g2.src), jstr(&abs), got),
+            );
+        }
+        if got {
+            st.matches += 1;
+            for d in ancestors(&abs) {
+                st.dir_checks += 1;
+                if !inc.matches_dir(&fclones::Path::from(d)) {
+                    // is the refusal explained by the known byte/character mix, for a pattern that matches the path?
+                    let explains = |g: &GlobCase, is_abs: bool| {
+                        let matches = m(g, is_abs, false) || m(g, is_abs, true);
+                        let lp = if is_abs { literal_prefix(g) } else { format!("/w/{}", literal_prefix(g)) };
+                        matches && literal_prefix_features(g).0 && byte_char_mix_explains(&lp, &format!("{}/", d), ic)
+                    };
+                    let bcm = explains(g1, abs1) || explains(g2, abs2);
+                    let mb = literal_prefix_features(g1).0 || literal_prefix_features(g2).0;
+                    agg.add(
+                        format!("\"kind\":\"prune_false_negative\",\"level\":\"selector_two_patterns\",\"prefix_has_multibyte\":{},\"byte_char_mix_explains\":{},\"ignore_case\":{}", mb, bcm, ic),
+                        || format!("\"glob\":{},\"glob2\":{},\"path\":{},\"dir\":{}", jstr(&g1.src), jstr(&g2.src), jstr(&abs), jstr(d)),
+                    );
+                }
+            }
+        }
+    }
+}
+
 /// Files of the fixed tree used by the command-line cross-check (relative to its root). Directory names
 /// (a, A, aa) and file names are disjoint.
 const CLI_FILES: &[&str] = &[
@@ -605,6 +659,40 @@ pub fn main(args: &[String]) {
         println!(
             "{{\"type\":\"summary\",\"globs\":{},\"rejected\":0,\"paths\":{},\"evaluations\":{},\"matches\":{},\"dir_checks\":0,\"exclude_checks\":0,\"ambiguous_negclass_sep\":0}}",
             st.globs, CLI_FILES.len(), st.evals, st.matches
+        );
+        return;
+    }
+    if args.iter().any(|a| a == "--pairs") {
+        // pairs of globs of <= K tokens that can reach below a directory (contain '/' or '**')
+        let k: usize = arg_val(args, "--tokens").unwrap_or("2").parse().unwrap();
+        let pathlen: usize = arg_val(args, "--pathlen").unwrap_or("4").parse().unwrap();
+        let shard = arg_val(args, "--shard").unwrap_or("0/1");
+        let (si, sn) = shard.split_once('/').unwrap();
+        let (si, sn): (usize, usize) = (si.parse().unwrap(), sn.parse().unwrap());
+        let paths: Vec<(String, Vec<char>)> = paths_upto(pathlen).into_iter().map(|s| { let c = s.chars().collect(); (s, c) }).collect();
+        let mut globs: Vec<GlobCase> = Vec::new();
+        enumerate_globs(k, None, &mut |g| {
+            if g.toks.iter().any(|t| matches!(t, Tok::Sep | Tok::DStar | Tok::Seqs(_))) {
+                globs.push(GlobCase { src: g.src.clone(), toks: g.toks.clone(), kinds: g.kinds.clone() });
+            }
+        });
+        let mut agg = Agg::default();
+        let mut st = Stats { globs: 0, rejected: 0, evals: 0, matches: 0, dir_checks: 0, excl_checks: 0, ambiguous: 0 };
+        let mut i = 0usize;
+        for a in 0..globs.len() {
+            for b in (a + 1)..globs.len() {
+                let mine = i % sn == si;
+                i += 1;
+                if mine {
+                    check_pair(&globs[a], &globs[b], false, &paths, &mut agg, &mut st);
+                    check_pair(&globs[a], &globs[b], true, &paths, &mut agg, &mut st);
+                }
+            }
+        }
+        agg.print();
+        println!(
+            "{{\"type\":\"summary\",\"globs\":{},\"rejected\":0,\"paths\":{},\"evaluations\":{},\"matches\":{},\"dir_checks\":{},\"exclude_checks\":0,\"ambiguous_negclass_sep\":0}}",
+            st.globs, paths.len(), st.evals, st.matches, st.dir_checks
         );
         return;
     }
